@@ -1,7 +1,7 @@
 """C02 - exact algorithms return a minimum-weight cycle basis and its weight."""
 from lib import engine
 from lib.core import tier
-from units import k12_scalar, k10_phase
+from units import k12_scalar, k10_phase, k08_bodies
 from . import common
 
 LEVEL = "other"
@@ -15,7 +15,9 @@ EXPLANATION = (
     "whole odd-cycle phase of mcb_sva_signed - all-vertices branch and hidden-edge-chain branch - ends with a candidate no "
     "heavier than ANY search it is responsible for, passes the current best as limit, and at every call owes the callee "
     "exactly the chain suffix {se..} as hidden set with se's endpoints (K10, unbounded in n and in the number of signed "
-    "edges up to the 63-bit mask).  BOUNDED stand-ins (not "
+    "edges up to the 63-bit mask); the sequential tree lookup returns a minimum-weight odd member of the SORTED candidate list "
+    "(first valid candidate), modularly against the candidate builder's contract K11 (proved for <= 24 candidates; the cap "
+    "comes only from stating sortedness of the ghost table by an unwound harness loop).  BOUNDED stand-ins (not "
     "proof): K9 bidirectional_signed_dijkstra against a two-level-graph shortest-path oracle for every witness "
     "set S, every start vertex, every hidden-chain prefix and limits at/around the optimum; K10 "
     "OddCycleFinder::find against the minimum over all enumerated odd cycles; K16 whole functions: returned "
@@ -23,7 +25,7 @@ EXPLANATION = (
 
 
 def run(rep):
-    engine.run_units(rep, k12_scalar.units(tier()) + k10_phase.units(tier()))
+    engine.run_units(rep, k12_scalar.units(tier()) + k10_phase.units(tier()) + [u for u in k08_bodies.units(tier()) if u.get('unit', '').startswith('K11')])
     common.native_filtered(
         rep, "e3_exact", common.C02_KINDS,
         functions={"mcb_sva_signed": "bounded(E3 set)", "mcb_sva_fvs_trees": "bounded(E3 set)",
